@@ -274,6 +274,16 @@ impl TensorWal {
 
         let file = OpenOptions::new().create(true).append(true).open(&path)?;
 
+        // Repair a torn tail left by a crash in the middle of a record write.
+        let valid_len = Self::valid_prefix_len(&path)?;
+        let current_size = if valid_len < current_size {
+            file.set_len(valid_len)?;
+            file.sync_all()?;
+            valid_len
+        } else {
+            current_size
+        };
+
         Ok(Self {
             file: BufWriter::new(file),
             path,
@@ -282,6 +292,42 @@ impl TensorWal {
             current_size,
             pending_sync_count: 0,
         })
+    }
+
+    /// Length of the longest prefix of the log that consists of complete records
+    /// (`[4-byte length][4-byte CRC32][payload]`).
+    ///
+    /// A crash can leave a partially written record at the end of the file. Replay stops at
+    /// such a record, and the format has no resync marker, so anything appended after it
+    /// would be unreachable (or surface as a checksum error). `open` truncates to this length.
+    fn valid_prefix_len(path: &Path) -> io::Result<u64> {
+        use std::io::{Seek, SeekFrom};
+
+        let mut file = match File::open(path) {
+            Ok(f) => f,
+            Err(e) if e.kind() == io::ErrorKind::NotFound => return Ok(0),
+            Err(e) => return Err(e),
+        };
+        let file_len = file.metadata()?.len();
+        let mut pos: u64 = 0;
+        loop {
+            if pos + 8 > file_len {
+                break;
+            }
+            file.seek(SeekFrom::Start(pos))?;
+            let mut len_buf = [0u8; 4];
+            match file.read_exact(&mut len_buf) {
+                Ok(()) => {},
+                Err(e) if e.kind() == io::ErrorKind::UnexpectedEof => break,
+                Err(e) => return Err(e),
+            }
+            let end = pos + 8 + u64::from(u32::from_le_bytes(len_buf));
+            if end > file_len {
+                break;
+            }
+            pos = end;
+        }
+        Ok(pos)
     }
 
     /// Get the WAL file path.
